@@ -248,8 +248,24 @@ pub fn pool() -> Vec<(&'static str, String)> {
         ("minimal", format!("{}{}", MINIMAL, BUILTINS)),
         ("explicit_query_only", format!("{}{}", EXPLICIT_QUERY_ONLY, BUILTINS)),
         ("pets", format!("{}{}", PETS, BUILTINS)),
+        ("plain", PLAIN.to_string()),
     ]
 }
+
+/// a well-formed schema that does NOT declare @skip / @include (a schema need not): the names
+/// the code may special-case must behave like any other undeclared directive
+pub const PLAIN: &str = "
+type Query { dog: Dog dogs(first: Int = 3): [Dog!] find(name: String!): Dog }
+type Dog { name: String nickname: String owner: Human barks: Boolean }
+type Human { name: String pets: [Dog] }
+directive @once on FIELD | QUERY
+directive @tag(name: String!) repeatable on FIELD | FRAGMENT_SPREAD | INLINE_FRAGMENT
+scalar Boolean
+scalar Float
+scalar Int
+scalar ID
+scalar String
+";
 
 /// a schema that defines none of the names documents use (C15: "whether or not the schema
 /// knows the names used")
